@@ -221,3 +221,161 @@ def await_ready_block(body, fut_local, max_hops=12):
             break
         cur = nxt
     return None
+
+
+def expr_of(body, op, depth=0, max_depth=12):
+    """Symbolic expression tree of an operand by walking single-definition temporaries:
+       ('const', int|str) | ('arg', n, proj...) | ('place', local, proj-names...) |
+       ('bin', op, a, b) | ('un', op, a) | ('cast', ty, a) | ('call', fn, [args...]) | ('agg', adt/variant, [ops]) | ('?',)
+    Field projections are rendered with their names.  WithOverflow forms and `.0` of their
+    result are folded into the plain operator."""
+    if depth > max_depth:
+        return ("?",)
+    if isinstance(op, dict) and "k" in op and ("cp" not in op and "mv" not in op):
+        k = op["k"]
+        if "v" in k:
+            try:
+                return ("const", int(k["v"]))
+            except ValueError:
+                return ("const", k["v"])
+        if "fn" in k:
+            return ("fn", k["fn"])
+        return ("const", k.get("def", k.get("s", k.get("ty"))))
+    p = F.op_place(op) if isinstance(op, dict) else op
+    if p is None:
+        return ("?",)
+    return _expr_place(body, p, depth, max_depth)
+
+
+def _proj_names(proj):
+    out = []
+    for e in proj:
+        if e == "*":
+            continue
+        if isinstance(e, (list, tuple)):
+            if e[0] == "f":
+                out.append(e[2] if len(e) > 2 and e[2] else e[1])
+            elif e[0] == "d":
+                out.append("as:" + str(e[2] if e[2] else e[1]))
+            else:
+                out.append(e[0])
+    return tuple(out)
+
+
+def _expr_place(body, p, depth, max_depth):
+    l, proj = p[0], p[1:]
+    names = _proj_names(proj)
+    ds = body.defs().get(l, [])
+    if 1 <= l <= body.nargs and not ds:
+        return ("arg", l) + names
+    if len(ds) != 1:
+        return ("place", l) + names
+    bb, idx, d = ds[0]
+    if idx == "t":
+        if d["k"] == "call":
+            fn, res, info = F.callee(d)
+            if fn is None:
+                # call through a fn-pointer local
+                fe = expr_of(body, d["f"], depth + 1, max_depth)
+                fn = fe[1] if fe[0] == "fn" else "<indirect>"
+            e = ("call", fn, tuple(expr_of(body, a, depth + 1, max_depth) for a in d["args"]))
+            return e if not names else ("proj", e) + names
+        return ("yield",)
+    k = d["k"]
+    if k == "use":
+        e = expr_of(body, d["o"], depth + 1, max_depth)
+    elif k in ("ref", "raw", "cfd"):
+        e = _expr_place(body, d["p"], depth + 1, max_depth)
+    elif k == "cast":
+        e = ("cast", d["ty"], expr_of(body, d["o"], depth + 1, max_depth))
+    elif k == "bin":
+        opn = d["op"].replace("WithOverflow", "").replace("Unchecked", "")
+        e = ("bin", opn, expr_of(body, d["a"], depth + 1, max_depth), expr_of(body, d["b"], depth + 1, max_depth))
+        if d["op"].endswith("WithOverflow") and names[:1] == (0,):
+            names = names[1:]
+    elif k == "un":
+        e = ("un", d["op"], expr_of(body, d["a"], depth + 1, max_depth))
+    elif k == "agg":
+        e = ("agg", (d.get("adt"), d.get("vn")) if d["ak"] == "adt" else d["ak"], tuple(expr_of(body, o, depth + 1, max_depth) for o in d["ops"]))
+    elif k == "disc":
+        e = ("disc", _expr_place(body, d["p"], depth + 1, max_depth))
+    else:
+        e = (k,)
+    if names:
+        if e[0] in ("arg", "place"):
+            return e + names
+        return ("proj", e) + names
+    return e
+
+
+def strip_casts(e):
+    while e and e[0] == "cast":
+        e = e[2]
+    return e
+
+
+def field_names_in(e):
+    """all field names mentioned anywhere in an expression tree"""
+    out = set()
+    if not isinstance(e, tuple):
+        return out
+    if e[0] in ("arg", "place"):
+        out |= {x for x in e[2:] if isinstance(x, str)}
+    elif e[0] == "proj":
+        out |= {x for x in e[2:] if isinstance(x, str)}
+        out |= field_names_in(e[1])
+    for x in e[1:]:
+        if isinstance(x, tuple):
+            if x and isinstance(x[0], str):
+                out |= field_names_in(x)
+            else:
+                for y in x:
+                    out |= field_names_in(y)
+    return out
+
+
+def switch_edges(body, bb):
+    """(zero_target, nonzero_target) of a boolean switchInt terminating bb, else None"""
+    t = body.term(bb)
+    if t["k"] != "switch":
+        return None
+    z = [b for v, b in t["ts"] if int(v) == 0]
+    if len(t["ts"]) == 1 and z:
+        return z[0], t["else"]
+    return None
+
+
+def next_switch(body, bb, limit=6):
+    """follow goto/drop chains from bb to the first switchInt block"""
+    for _ in range(limit):
+        t = body.term(bb)
+        if t["k"] == "switch":
+            return bb
+        if t["k"] in ("goto", "drop", "fe", "fu"):
+            bb = t["t"]
+        else:
+            return None
+    return None
+
+
+def field_writes(facts, field_name, owner_pat):
+    """Census of writes to a named field: direct assignments `x.field = ..` and `&mut x.field`
+    borrows, in non-test bodies.  Returns [(body, bb, idx, kind, stmt)].  `owner_pat`: regex the
+    base local's type must match (the struct that owns the field)."""
+    rx = re.compile(owner_pat)
+    out = []
+    for b in facts.non_test_bodies():
+        if not b.file.startswith("ipa-core/"):
+            continue
+        for bb, idx, s in b.iter_assigns():
+            p = s["p"]
+            last = p[-1] if len(p) > 1 else None
+            if isinstance(last, list) and last[0] == "f" and len(last) > 2 and last[2] == field_name and rx.search(b.local_ty(p[0])):
+                out.append((b, bb, idx, "assign", s))
+            r = s["r"]
+            if r["k"] in ("ref", "raw") and r.get("m", "mut") == "mut" or r["k"] == "raw":
+                q = r["p"]
+                lastq = q[-1] if len(q) > 1 else None
+                if isinstance(lastq, list) and lastq[0] == "f" and len(lastq) > 2 and lastq[2] == field_name and rx.search(b.local_ty(q[0])):
+                    out.append((b, bb, idx, "borrow_mut", s))
+    return out
